@@ -1746,7 +1746,7 @@ impl<'a, E: quiver_core::effects::Effect> Compiler<'a, E> {
             module_cache: &mut *self.module_cache,
             package: &self.current_package,
         };
-        let (bindings, binding_sets, result_type) = pattern::analyze_pattern(
+        let (bindings, binding_sets, result_type, matched_type) = pattern::analyze_pattern(
             &mut env,
             self.program,
             &pattern,
@@ -1888,8 +1888,10 @@ impl<'a, E: quiver_core::effects::Effect> Compiler<'a, E> {
                     self.program,
                 );
             } else {
-                // Standard whole-value narrowing
-                n.record(&value_provenance, value_type, result_type, self.program);
+                // Standard whole-value narrowing. Record the *matched* type, not `result_type`:
+                // the latter carries a `[]` that only says "this match can fail", and subtracting
+                // it would tell later branches that a nil scrutinee has been handled.
+                n.record(&value_provenance, value_type, matched_type, self.program);
             }
         }
 
